@@ -36,12 +36,40 @@ fn usage() -> ! {
     std::process::exit(2);
 }
 
+/// What an application that wires up the `log` facade looks like to the library: a logger that accepts every
+/// record and formats its arguments (so whatever a `log::trace!` / `debug!` in the library evaluates, runs).
+/// The output goes to a counting sink. `VERIF_LOG=off` leaves the facade in its default (disabled) state.
+struct TraceSink;
+struct CountingWriter(usize);
+impl std::fmt::Write for CountingWriter {
+    fn write_str(&mut self, s: &str) -> std::fmt::Result {
+        self.0 += s.len();
+        Ok(())
+    }
+}
+impl log::Log for TraceSink {
+    fn enabled(&self, _: &log::Metadata) -> bool {
+        true
+    }
+    fn log(&self, record: &log::Record) {
+        use std::fmt::Write;
+        let mut w = CountingWriter(0);
+        let _ = write!(w, "{}", record.args());
+        std::hint::black_box(w.0);
+    }
+    fn flush(&self) {}
+}
+static TRACE_SINK: TraceSink = TraceSink;
+
 fn main() {
     let args: Vec<String> = std::env::args().collect();
     if args.len() < 2 {
         usage();
     }
     install_panic_hook();
+    if std::env::var("VERIF_LOG").map(|v| v != "off").unwrap_or(true) && log::set_logger(&TRACE_SINK).is_ok() {
+        log::set_max_level(log::LevelFilter::Trace);
+    }
     let workers = std::env::var("VERIF_WORKERS")
         .ok()
         .and_then(|s| s.parse().ok())
